@@ -43,7 +43,7 @@ func classify(err error) string {
 }
 
 // drain concatenates a stream of map chunks (distinct keys per chunk are unioned).
-func drain(sr interface {
+func drainOld(sr interface {
 	Recv() (gprog.Val, error)
 	Close()
 }) (gprog.Val, error, bool) {
